@@ -19,22 +19,38 @@
 (* The rows describe the *intended* behaviour of the bundled managers: a     *)
 (* manager answers the requests it implements and passes every other request *)
 (* on (so that the fallback error is sent); it never answers a response.     *)
+(*                                                                         *)
+(* Stage 0 of the pipeline is the client's own request tracker              *)
+(* (OutgoingIqManager::handleStanza, called from handleElement before any    *)
+(* extension sees the stanza).  The client may have one tracked request of   *)
+(* its own outstanding (action SendRequest: QXmppClient::sendIq to a peer);  *)
+(* an incoming <iq/> that carries the id of that request (id kind "pending") *)
+(* is taken as its response -- the task completes, nothing else sees the     *)
+(* stanza -- iff its type is result/error and its sender is the peer the     *)
+(* request went to (or absent: the server answering on the peer's behalf).   *)
+(* Ids are unique per sender only, so an incoming *request* may carry the    *)
+(* same id (two QXmpp endpoints number their ids qxmpp1, qxmpp2, ... and     *)
+(* collide naturally): it must go down the pipeline like any other request.  *)
 (***************************************************************************)
 EXTENDS Naturals, Sequences, FiniteSets, TLC
 
 CONSTANTS Types,      \* subset of {"get","set","result","error","absent","garbage"}
           Payloads,   \* payload kinds (see AllPayloads)
           Froms,      \* sender classes
-          IdKinds,    \* {"fresh","dup","empty"}
+          IdKinds,    \* {"fresh","dup","empty","pending"}; "pending" = the id of the client's own outstanding request,
+                      \* "dup" = the id of the previous IQ whose id kind was not "pending"
+          Peers,      \* sender classes the client may have sent a tracked request to (subset of Froms \ {"Empty"})
           ExtSets,    \* {"none","default","all","allrev"}
           MaxHist
 
 VARIABLES ext,        \* installed extension set of this client
           open,       \* the stream is open (FALSE after a Reject)
-          last,       \* outcome of the last IQ: [t, act, owner, replies]
+          pending,    \* "none", or the sender class of the peer the client's outstanding tracked request went to
+          last,       \* outcome of the last IQ: [t, replies, tdone] (who handled it is not kept: it is a function
+                      \* of the step, see Dispatch, and keeping it only multiplies the states)
           hist
 
-mvars == <<ext, open, last>>
+mvars == <<ext, open, pending, last>>
 vars  == <<mvars, hist>>
 
 Req  == {"get", "set"}
@@ -139,26 +155,47 @@ Dispatch(x, t, p, f) ==
 \* the whole dispatch function as a constant table (TLC evaluates it once)
 DispatchTable == [x \in ExtSets, t \in Types, p \in Payloads, f \in Froms |-> Dispatch(x, t, p, f)]
 
-NoIq == [t |-> "none", act |-> "none", owner |-> "none", replies |-> 0]
+NoIq == [t |-> "none", replies |-> 0, tdone |-> FALSE]
 
 Init ==
     /\ ext \in ExtSets
     /\ open = TRUE
+    /\ pending = "none"
     /\ last = NoIq
     /\ hist = <<>>
 
 Log(r) == hist' = Append(hist, r)
 
+(* --- the client issues a tracked request of its own (QXmppClient::sendIq) ------ *)
+SendRequest(peer) ==
+    /\ open /\ pending = "none"
+    /\ pending' = peer
+    /\ Log([a |-> "SendRequest", peer |-> peer])
+    /\ UNCHANGED <<ext, open, last>>
+
+\* stage 0, OutgoingIqManager::handleStanza: is this <iq/> the response to the outstanding request?
+IsTrackedResponse(t, f, k) ==
+    /\ pending # "none" /\ k = "pending"
+    /\ t \in Resp                           \* a request is never a response, whatever its id
+    /\ f = pending \/ f = "Empty"           \* from the peer asked, or from the server on its behalf
+
 (* --- an <iq/> arrives on the open stream -------------------------------------- *)
 Recv(t, p, f, k) ==
     /\ open
     /\ Log([a |-> "Recv", t |-> t, p |-> p, f |-> f, k |-> k])
-    /\ LET d == DispatchTable[ext, t, p, f] IN
-        /\ last' = [t |-> t, act |-> d.act, owner |-> d.owner, replies |-> IF d.act = "Reply" THEN 1 ELSE 0]
-        /\ open' = (d.act # "Reject")
+    /\ IF IsTrackedResponse(t, f, k)
+       THEN \* the task of the outstanding request completes; nobody else sees the stanza
+            /\ last' = [t |-> t, replies |-> 0, tdone |-> TRUE]
+            /\ pending' = "none"
+            /\ UNCHANGED open
+       ELSE LET d == DispatchTable[ext, t, p, f] IN
+            /\ last' = [t |-> t, replies |-> IF d.act = "Reply" THEN 1 ELSE 0, tdone |-> FALSE]
+            /\ open' = (d.act # "Reject")
+            /\ UNCHANGED pending
     /\ UNCHANGED ext
 
-Next == \E t \in Types : \E p \in Payloads : \E f \in Froms : \E k \in IdKinds : Recv(t, p, f, k)
+Next == \/ \E t \in Types : \E p \in Payloads : \E f \in Froms : \E k \in IdKinds : Recv(t, p, f, k)
+        \/ \E peer \in Peers : SendRequest(peer)
 
 Spec == Init /\ [][Next]_vars
 
@@ -169,9 +206,13 @@ P_RequestAnswered(t, n)   == t \in Req  => n = 1
 P_ResponseNotAnswered(t, n) == t \in Resp => n = 0
 P_NoReplyLoop(t, n)       == t \notin (Req \cup Resp) => n <= 1
 
+\* (observation, C07's business:) the outstanding task completes only by a response
+P_TaskOnlyByResponse(t, tdone) == tdone => t \in Resp
+
 RequestAnswered     == P_RequestAnswered(last.t, last.replies)
 ResponseNotAnswered == P_ResponseNotAnswered(last.t, last.replies)
 NoReplyLoop         == P_NoReplyLoop(last.t, last.replies)
+TaskOnlyByResponse  == P_TaskOnlyByResponse(last.t, last.tdone)
 
 \* the table itself: no row swallows a request, no row answers anything but a request
 \* (constant-level: checked once, as ASSUMEs, see the end of the module)
@@ -188,21 +229,27 @@ SingleOwner ==
 
 TypeOK ==
     /\ ext \in ExtSets /\ open \in BOOLEAN
-    /\ last.replies \in {0, 1}
-    /\ last.act \in {"none", "Reply", "Consume", "Reject"}
-    /\ (open = FALSE => last.act = "Reject")
+    /\ pending \in {"none"} \cup Peers
+    /\ last.replies \in {0, 1} /\ last.tdone \in BOOLEAN
+    /\ (open = FALSE => last.replies = 0 /\ last.t \notin (Req \cup Resp))    \* only a Reject closes the stream
 
 ASSUME RowsWellFormed
 ASSUME SingleOwner
 ASSUME Payloads \subseteq AllPayloads
+ASSUME Peers \subseteq (Froms \ {"Empty"})
 
 Reinit(x) ==
     /\ ext' = x
     /\ open' = TRUE
+    /\ pending' = "none"
     /\ last' = NoIq
     /\ hist' = <<>>
 
 Bound == Len(hist) <= MaxHist
 View  == mvars
+\* generation with a request always outstanding: when none is, the next step issues one
+KeepPending == (pending = "none") => (pending' # "none")
+
 TourView == <<ext, open>>     \* tour: one source state per extension set
+PendView == <<ext, open, pending>>   \* tour with an outstanding request: one source state per extension set and peer
 =============================================================================
